@@ -15,6 +15,7 @@ R11.2  interpreter: every stack of length <= 2 over a small alphabet and every p
 R11.3  PSBT satisfier preimage look-ups with preimages of length 0, 31, 32, 33
 R11.4  the parser's pre-check bounds nesting: depth 402 accepted, 403 refused, before any tree is built
 R11.7  spent-output look-ups of the finalizer / sighash_msg over utxo presence x previous-transaction size x vout
+R11.8  DescriptorPublicKey::from_str on near-valid key expressions
 R11.6  script decoder: every single-instruction mutation of every family script and all tiny scripts (props/decoder.py)
 R11.5  recursion reachable from the text / script / PSBT entry points is confined to the audited functions whose depth
        is bounded by the pre-check (call-graph SCCs over MIR)"""
@@ -330,6 +331,97 @@ def check_utxo_lookups(chk, F):
     chk.floor(R, "cases", n_cases, 150)
 
 
+# ---- R11.8 key expressions ------------------------------------------------------------------------------------------
+
+def key_mutations(texts, XPUB):
+    """near-valid key expressions: every single-character deletion / structural insertion outside the long key body
+    (two positions inside it), truncations, and degenerate forms"""
+    out = []
+    seen = set()
+    STRUCT = "[]/<>;*'h#,()@ "
+    for t in texts:
+        body = t.find(XPUB)
+        skip = range(body + 6, body + len(XPUB) - 3) if body >= 0 else range(0)
+        pos = [i for i in range(len(t) + 1) if i not in skip]
+        for i in pos:
+            if i < len(t):
+                out.append(t[:i] + t[i + 1:])
+                out.append(t[:i])
+            for ch in STRUCT:
+                out.append(t[:i] + ch + t[i:])
+        for a, b in (("/", "//"), ("<", "<<"), (">", ">>"), (";", ";;"), ("]", "]]"), ("[", "[["), ("'", "''"), ("0", "-0"),
+                     ("0", "4294967296"), ("0", "2147483648"), ("1", "18446744073709551616"), ("deadbeef", "deadbee"),
+                     ("deadbeef", "deadbeef0"), ("deadbeef", "zzzzzzzz"), ("deadbeef", ""), ("*", "**"), ("*", "*/1"),
+                     ("<0;1>", "<>"), ("<0;1>", "<0>"), ("<0;1>", "<;>"), ("<0;1>", "<0;>"), ("<0;1>", "<0;1"), ("<0;1>", "0;1>"),
+                     ("<0;1>", "<0;1>/<2;3>"), ("<0;1>", "<0;1;" + ";".join(map(str, range(2, 40))) + ">")):
+            if a in t:
+                out.append(t.replace(a, b, 1))
+                out.append(t.replace(a, b))
+    out += ["", "[", "]", "[]", "[/]", "[deadbeef", "[deadbeef]", "[deadbeef/]", "[deadbeef]/", "/", "//", "/*", "*", "<", ">", "<>",
+            "<0;1>", "/<0;1>", "é", "[dé]", "\x7f", "\x00", "[deadbeef]é", "02", "0" * 66, "0" * 130, "x" * 111, "xpub", "tpub" + "1" * 107,
+            "[" * 50, "/" * 300, "<" * 20 + ">" * 20, "[deadbeef" + "/0" * 300 + "]" + XPUB, XPUB + "/0" * 300, XPUB + "/<" + ";".join(["1"] * 300) + ">"]
+    res = []
+    for x in out:
+        if x not in seen:
+            seen.add(x)
+            res.append(x)
+    return res
+
+
+def check_key_parsers(chk, F):
+    from . import c10
+    R = "R11.8"
+    chk.rule(R, "DescriptorPublicKey::from_str and DescriptorSecretKey::from_str (parse_key_origin, parse_xkey_deriv) return an error value, never panic, on "
+                "near-valid key expressions: every single-character deletion, truncation and structural insertion around "
+                "origin, path, multipath step and wildcard of ~20 valid expressions, degenerate / huge numbers, unbalanced "
+                "brackets, non-ASCII, very long paths and multipath tuples")
+    fs = [it["path"] for i in F.impls if i["trait"] == "std::str::FromStr" and i["self_adt"] == c10.DPK
+          for it in i["items"] if it["name"] == "from_str"]
+    if len(fs) != 1:
+        chk.fail(R, "anchor", "FromStr for DescriptorPublicKey not found", kind="unanalysable")
+        return
+    chk.saw(fs[0], F.fn("parse_xkey_deriv", file="descriptor/key.rs"), F.fn("parse_key_origin", file="descriptor/key.rs"))
+    DSK = "descriptor::key::DescriptorSecretKey"
+    fsec = [it["path"] for i in F.impls if i["trait"] == "std::str::FromStr" and i["self_adt"] == DSK
+            for it in i["items"] if it["name"] == "from_str"]
+    if len(fsec) != 1:
+        chk.fail(R, "anchor", "FromStr for DescriptorSecretKey not found", kind="unanalysable")
+        return
+    chk.saw(fsec[0])
+    m = c10.key_machine(F)
+    from ..builtins import deref
+    m.hooks["<bitcoin::PrivateKey as std::str::FromStr>::from_str"] = lambda m_, a, c: ok(("wif", deref(a[0]))) \
+        if len(deref(a[0])) in (51, 52) and deref(a[0]).isalnum() else err(Term("WifError"))
+    base = [t for t in c10.key_texts() if t.startswith("[deadbeef/0'") or t.startswith(c10.XPUB)][:26] + c10.key_noncanonical()
+    texts = key_mutations(base, c10.XPUB)
+    if chk.tier != "thorough":
+        texts = texts[::3] + texts[-40:]
+    XPRV = "xprv" + c10.XPUB[4:]
+    WIF = "K" + "w1" * 25 + "z"
+    jobs = [(fs[0], t) for t in texts] + [(fsec[0], t.replace(c10.XPUB, XPRV)) for t in texts]
+    jobs += [(fsec[0], t) for t in key_mutations([WIF, "[deadbeef/1']" + WIF], XPRV)]
+    panics = []
+    n = 0
+    for fn_, t in jobs:
+        n += 1
+        try:
+            r = m.call_path(fn_, [t])
+            if not (isinstance(r, Adt) and r.variant in ("Ok", "Err")):
+                panics.append((t, "returned %r" % (r,)))
+        except Panic as e:
+            panics.append((t, "panic: %s" % e))
+        except Unsupported as e:
+            chk.fail(R, "unanalysable", "unanalysable on %r: %s" % (t.replace(c10.XPUB, "XPUB")[:80], e), where=e.where, kind="unanalysable")
+            return
+    if panics:
+        chk.fail(R, "key-parser", "%d text(s) panic; first: %r: %s" % (len(panics), panics[0][0].replace(c10.XPUB, "XPUB")[:120], panics[0][1]),
+                 where="src/descriptor/key.rs", detail=[(a.replace(c10.XPUB, "XPUB")[:200], b) for a, b in panics[:12]])
+    else:
+        chk.ok(R)
+    chk.extra["R11.8_texts"] = n
+    chk.floor(R, "malformed key expressions", n, 4000)
+
+
 # ---- R11.4 depth pre-check --------------------------------------------------------------------------------------
 
 def check_depth(chk, F):
@@ -503,3 +595,5 @@ def run(chk):
         chk.guard("R11.6", "decoder", decoder.check_decoder_panics, chk, F)
     if not ONLY or "7" in ONLY:
         chk.guard("R11.7", "utxo-lookups", check_utxo_lookups, chk, F)
+    if not ONLY or "8" in ONLY:
+        chk.guard("R11.8", "key-parsers", check_key_parsers, chk, F)
